@@ -66,7 +66,22 @@ def build(cfg: dict[str, Any], kind: str):
                     kw["scale"] = jnp.sum(xa) * 0.0 + 1.75
                 elif s["kw"] == "param":
                     kw["flip"] = flip          # a boolean call-time flag (what input_params is designed for)
-                outs.append(objs[s["inst"]](x, **kw))
+                elif s["kw"] == "ab":
+                    # two traced keyword arguments; Python keeps the order they are written in
+                    kw["scale"] = jnp.sum(xa) * 0.0 + 1.75
+                    kw["shift"] = jnp.sum(xa) * 0.0 + 0.5
+                elif s["kw"] == "ba":
+                    kw["shift"] = jnp.sum(xa) * 0.0 + 0.5
+                    kw["scale"] = jnp.sum(xa) * 0.0 + 1.75
+                if s.get("scope", "top") == "body":
+                    si = len(outs) + 1
+                    U.SITE_CALL[si] = (lambda v, _o=objs[s["inst"]], _kw=kw: _o(v, **_kw))
+                    if decorated:
+                        outs.append(getattr(U, f"outer_body_{si}")(x))
+                    else:
+                        outs.append(U.SITE_CALL[si](x) + 0.0)
+                else:
+                    outs.append(objs[s["inst"]](x, **kw))
             return tuple(outs)
 
         return fn
@@ -97,6 +112,10 @@ def run_configs(items: list[dict[str, Any]]) -> list[dict[str, Any]]:
             continue
         if kind == "free" and (cfg["tab"] != "twin"):
             rec["status"] = "not_applicable"   # a free function has no instances with other weights
+            out.append(rec)
+            continue
+        if any(s_.get("scope", "top") == "body" and s_["kw"] not in ("none", "s1", "s2") for s_ in cfg["sites"]):
+            rec["status"] = "not_applicable"   # a traced keyword value cannot be closed over by an outer function body
             out.append(rec)
             continue
         fdec, fraw, specs, kw, xs = build(cfg, kind)
@@ -156,8 +175,20 @@ def run_configs(items: list[dict[str, Any]]) -> list[dict[str, Any]]:
         rec["nsems"] = cfg["sems"]
         if len(fdefs) < cfg["sems"]:
             rec["problems"].append(f"{len(fdefs)} function definitions for {cfg['sems']} distinct functions")
+        if len(mdec.functions) != len(fdefs):
+            rec["problems"].append(f"{len(mdec.functions)} FunctionProtos but only {len(fdefs)} distinct (domain, name) identifiers")
         imports = {o.domain for o in mdec.opset_import}
         ncalls = 0
+        for f_ in mdec.functions:
+            fimp = {o.domain for o in f_.opset_import}
+            for n in f_.node:
+                key = (n.domain, n.op_type)
+                if key in fdefs:
+                    d_ = fdefs[key]
+                    if len(n.input) != len(d_.input) or len(n.output) != len(d_.output):
+                        rec["problems"].append(f"nested call node {n.name} in {f_.name}: arity differs from its definition")
+                    if n.domain not in fimp:
+                        rec["problems"].append(f"function {f_.name} calls domain {n.domain} without importing it")
         for n in mdec.graph.node:
             key = (n.domain, n.op_type)
             if key in fdefs:
